@@ -1226,6 +1226,17 @@ func c10RoundE(c *Ctx, w *World) {
 	c.Min(1)
 	recordAndIndexTogether(c, w)
 
+	c.Rule("C10.K12", "ONCE", "the statistics a reopened state reads are those of the validators it lists: a removal is counted once — RemoveValidator already takes the record out of the statistics and marks it deleted, so the flush (deleteValidator, which IntermediateRoot calls for marked records) decrements only if the record was not marked before (its decrValidatorsStat call depends on the previous value of the deleted flag). Otherwise create A, B; commit; RemoveValidator(B); commit; reopen: one validator, statistics count 0 — and removing A wraps the count to 2^64−2")
+	c.Min(1)
+	{
+		rm, _, del, rmDecr, _, rmFlag, _, delGuarded := removalEffects(w)
+		c.sawFunc(fname(rm))
+		c.sawFunc(fname(del))
+		c.sites++
+		ok := !(rmDecr && rmFlag) || delGuarded
+		c.Check(fname(del)+"#decrement-once-per-removal", del.Pos(), ok, ifelse(ok, "the flush decrements only for a record that was not already removed from the statistics", "RemoveValidator decrements the statistics and marks the record, and deleteValidator decrements again for every marked record: a committed removal is counted twice"))
+	}
+
 	c.Rule("C10.K11", "OWNERSHIP", "a copy of a state is independent of the original: SecureTrie.Copy shares all nodes and relies on strict copy-on-write, so in the trie's insert and delete every store into a field of a branch or extension node (Children[i], Key, Val, flags) goes to a node this call made — the result of copy() or a new literal on every path, never the node it was handed. Skipping the copy for a node that is merely dirty (hashed by IntermediateRoot but not yet committed) edits a node shared with a copy taken in between: writes to the copy move the original's roots")
 	c.Min(6)
 	{
